@@ -48,7 +48,15 @@ type Piece struct {
 // Tokenize splits src. It returns an error for sources that are not
 // well-formed according to the documented syntax (unterminated token, "#}"
 // outside a comment).
-func Tokenize(src []byte) ([]Piece, error) {
+func Tokenize(src []byte) ([]Piece, error) { return tokenize(src, false) }
+
+// TokenizeHTML is Tokenize for a source in HTML format whose text stays in the
+// HTML text context: a CDATA section, from "<![CDATA[" to the first following
+// "]]>" (or to the end of the source), is literal text in which no template
+// syntax is recognised.
+func TokenizeHTML(src []byte) ([]Piece, error) { return tokenize(src, true) }
+
+func tokenize(src []byte, cdata bool) ([]Piece, error) {
 	var ps []Piece
 	pos := 0
 	if len(src) > 1 && src[0] == '#' && src[1] == '!' {
@@ -69,6 +77,15 @@ func Tokenize(src []byte) ([]Piece, error) {
 	}
 	for pos < len(src) {
 		c := src[pos]
+		if cdata && c == '<' && bytes.HasPrefix(src[pos:], []byte("<![CDATA[")) {
+			end := bytes.Index(src[pos+9:], []byte("]]>"))
+			if end < 0 {
+				pos = len(src)
+			} else {
+				pos += 9 + end + 3
+			}
+			continue
+		}
 		if c == '#' && pos+1 < len(src) && src[pos+1] == '}' {
 			return nil, fmt.Errorf("offset %d: #} outside a comment", pos)
 		}
